@@ -1,17 +1,19 @@
 #!/bin/bash
 # confirm a seeded change in its scratch worktree: builds in 3 feature sets, pinned suite passes,
 # demo fails with the change and passes without it. usage: confirm_seed.sh <worktree> ; prints a JSON line.
+# (uses `git apply -R` / `git apply` of seed/patch.diff, never the stash, which worktrees share)
 set -u
 W=$1
 cd "$W" || exit 2
 export CARGO_TARGET_DIR=$W/target CARGO_NET_OFFLINE=true
+if git diff --quiet -- src Cargo.toml; then git apply seed/patch.diff || { echo "{\"worktree\":\"$W\",\"error\":\"patch does not apply\"}"; exit 1; }; fi
 b1=$(cargo build --offline >/dev/null 2>&1 && echo ok || echo FAIL)
 b2=$(cargo build --offline --features luau >/dev/null 2>&1 && echo ok || echo FAIL)
 b3=$(cargo build --offline --all-features >/dev/null 2>&1 && echo ok || echo FAIL)
 tests=$(cargo test --offline 2>&1 | grep -E "^test result" | awk '{p+=$4; f+=$6} END{print p"/"f}')
 bash seed/demo.sh >/tmp/demo_with.$$ 2>&1; with=$?
-git stash push -q -- src >/dev/null 2>&1
+git apply -R seed/patch.diff
 bash seed/demo.sh >/tmp/demo_without.$$ 2>&1; without=$?
-git stash pop -q >/dev/null 2>&1
+git apply seed/patch.diff
 rm -f /tmp/demo_with.$$ /tmp/demo_without.$$
 echo "{\"worktree\":\"$W\",\"build_default\":\"$b1\",\"build_luau\":\"$b2\",\"build_all\":\"$b3\",\"tests_pass_fail\":\"$tests\",\"demo_exit_with_change\":$with,\"demo_exit_without_change\":$without}"
